@@ -9,9 +9,9 @@ import (
 	"sync"
 	"time"
 
-	"github.com/scrapli/scrapligo/driver/generic"
 	"github.com/scrapli/scrapligo/driver/options"
 	"github.com/scrapli/scrapligo/transport"
+	"github.com/scrapli/scrapligo/util"
 
 	"verifgo/facts"
 	"verifgo/sim"
@@ -45,6 +45,19 @@ type c10case struct {
 	// harmless banner: in the property's quantifier whatever the code's patterns say
 	canonical bool
 	canonIdx  int
+	// extended scenarios (c10x.go)
+	ext         bool
+	entry       string // "" / "generic", "network" (through a platform definition), "netconf"
+	patSet      int    // index into facts.AuthPool (0 = library defaults)
+	viaPlatform bool   // custom patterns set through the platform definition's options
+	bypass      bool   // options.WithAuthBypass
+	plain       bool   // transport without in-channel authentication
+	faultKind   string // "", "eof", "ioerr", "werr"
+	faultAt     int
+	firstOp     string // "A" ReadUntilPrompt+GetPrompt, "B" GetPrompt, "C" SendCommand
+	rawSecret   bool   // a credential contains the return character: the device sees other lines
+	ncCaps      []string
+	ncSession   uint64
 }
 
 var c10banner = []string{
@@ -327,6 +340,20 @@ func c10canonical() []c10case {
 		mk(false, seg, sim.LoginStage{Kind: sim.LoginUser, Text: "login:"}, sim.LoginStage{Kind: sim.LoginSilence, Text: ""})
 		mk(true, seg, sim.LoginStage{Kind: sim.LoginSilence, Text: "Connecting...\n"})
 	}
+	// a passphrase prompt although NO passphrase is configured (encrypted default identity): it is
+	// answered with an empty line, twice at most; ssh then falls back to the password
+	for seg := 0; seg < 2; seg++ {
+		F := sim.LoginStage{Kind: sim.LoginPhrase, Text: "Enter passphrase for key '/home/u/.ssh/id_rsa': "}
+		W := sim.LoginStage{Kind: sim.LoginPass, Text: "admin@host's password: "}
+		mk(true, seg, F, W, shell)
+		out[len(out)-1].phrase = ""
+		mk(true, seg, F, F, F, shell)
+		out[len(out)-1].phrase = ""
+		// failure text and a prompt in the same emission: the failure wins
+		mk(true, seg, W, sim.LoginStage{Kind: sim.LoginErr, Text: "Permission denied, please try again.\nadmin@host's password: "})
+		mk(true, seg, sim.LoginStage{Kind: sim.LoginErr, Text: "@ WARNING: UNPROTECTED PRIVATE KEY FILE! @\nEnter passphrase for key '/x': "})
+		mk(true, seg, W, sim.LoginStage{Kind: sim.LoginErr, Text: "Permission denied (publickey,password).\nrouter#"})
+	}
 	for i := range out {
 		out[i].silent = out[i].plan[len(out[i].plan)-1].Kind == sim.LoginSilence
 	}
@@ -376,6 +403,16 @@ type c10obs struct {
 	// idleMs: how long before Open returned the transport had last delivered a read or taken a write;
 	// a timeout with little idle time says nothing (the machine was too slow for the timer)
 	idleMs int64
+	// extended scenarios
+	writeFails  int
+	delivered   int
+	cmdResult   string
+	cmdErr      string
+	didC        bool
+	ncSession   uint64
+	ncCaps      []string
+	didNC       bool
+	didP        bool
 }
 
 var c10letter = map[string]string{sim.LoginUser: "u", sim.LoginPass: "w", sim.LoginPhrase: "f", sim.LoginShell: "p", sim.LoginErr: "e", sim.LoginSilence: "q"}
@@ -394,6 +431,19 @@ func runC10case(cs c10case, slow int) c10obs {
 	}
 	lg.User, lg.Password, lg.Passphrase = cs.user, cs.pass, cs.phrase
 	lg.Prompt, lg.NL, lg.EchoUser = cs.prompt, cs.nl, cs.echo
+	if cs.plain {
+		impl = &sim.LoginPlain{L: lg}
+	}
+	lg.Mute = cs.entry == "netconf"
+	lg.ShellOutput = func(string) string { return c10cmdOutput + cs.nl }
+	switch cs.faultKind {
+	case "eof":
+		lg.EOFAt = cs.faultAt
+	case "ioerr":
+		lg.ErrAt = cs.faultAt
+	case "werr":
+		lg.WriteErrAfter = cs.faultAt
+	}
 	sr := vlib.NewRng(cs.seed ^ 0x5eed)
 	var seg func(int) int
 	switch cs.segClass {
@@ -420,15 +470,19 @@ func runC10case(cs c10case, slow int) c10obs {
 	if !cs.silent && !cs.malformed {
 		timeout = time.Duration(slow) * 4 * time.Second
 	}
-	d, err := generic.NewDriver("host", options.WithCustomTransport(impl), options.WithAuthUsername(cs.user),
-		options.WithAuthPassword(cs.pass), options.WithTimeoutOps(timeout), options.WithReadDelay(50*time.Microsecond),
-		options.WithPromptSearchDepth(cs.depth), options.WithTransportReadSize(cs.readSize))
+	opts := []util.Option{options.WithCustomTransport(impl), options.WithAuthUsername(cs.user),
+		options.WithAuthPassword(cs.pass), options.WithTimeoutOps(timeout), options.WithReadDelay(50 * time.Microsecond),
+		options.WithPromptSearchDepth(cs.depth), options.WithTransportReadSize(cs.readSize)}
+	if cs.bypass {
+		opts = append(opts, options.WithAuthBypass())
+	}
+	d, closeAll, err := c10newDriver(cs, opts)
 	if err != nil {
 		o.newErr = err.Error()
 		return o
 	}
 	t0 := time.Now()
-	openErr := d.Open()
+	openErr := d.open()
 	tEnd := time.Now()
 	o.openMs = tEnd.Sub(t0).Milliseconds()
 	o.outcome = errClass(openErr)
@@ -443,6 +497,7 @@ func runC10case(cs c10case, slow int) c10obs {
 	var readLog []int
 	lg.Snapshot(func() {
 		o.closeCalls, o.closed = lg.CloseCalls, lg.Closed
+		o.writeFails, o.delivered = lg.WriteFails, lg.Delivered
 		o.lines = append(o.lines, lg.Lines...)
 		for _, e := range lg.Emissions {
 			o.kinds = append(o.kinds, e.Kind)
@@ -469,7 +524,36 @@ func runC10case(cs c10case, slow int) c10obs {
 		chunks[j] = append(chunks[j], stream[pos:end])
 		pos = end
 	}
-	f := []string{"c10", "open", map[bool]string{true: "s", false: "t"}[cs.ssh], strconv.Itoa(cs.depth), vlib.Hex([]byte(cs.user)),
+	if cs.rawSecret && len(o.kinds) > 0 {
+		// a credential with k embedded returns reaches the device as k+1 lines, i.e. k+1 reactions:
+		// for the model (one reaction per credential write) they are one emission
+		var mk []string
+		var mc [][][]byte
+		mk, mc = append(mk, o.kinds[0]), append(mc, chunks[0])
+		e := 1
+		for w := 0; w+1 < len(o.writes) && e < len(o.kinds); w += 2 {
+			n := bytes.Count(o.writes[w], []byte("\n")) + 1
+			var merged [][]byte
+			kind := o.kinds[e]
+			for ; n > 0 && e < len(o.kinds); n, e = n-1, e+1 {
+				merged = append(merged, chunks[e]...)
+				kind = o.kinds[e]
+			}
+			mk, mc = append(mk, kind), append(mc, merged)
+		}
+		for ; e < len(o.kinds); e++ {
+			mk, mc = append(mk, o.kinds[e]), append(mc, chunks[e])
+		}
+		o.kinds, chunks = mk, mc
+	}
+	fl := map[bool]string{true: "s", false: "t"}[cs.ssh]
+	if cs.entry == "netconf" {
+		fl = "n"
+	}
+	if cs.bypass || cs.plain {
+		fl = "b"
+	}
+	f := []string{"c10", "open", fl, strconv.Itoa(cs.patSet), strconv.Itoa(cs.depth), vlib.Hex([]byte(cs.user)),
 		vlib.Hex([]byte(cs.pass)), vlib.Hex([]byte(cs.phrase)), "0a"}
 	for j, k := range o.kinds {
 		f = append(f, c10letter[k], vlib.HexList(chunks[j]))
@@ -480,19 +564,36 @@ func runC10case(cs c10case, slow int) c10obs {
 	}
 	o.request = strings.Join(f, " ")
 	if openErr == nil {
-		if !cs.variantB {
-			o.didA = true
-			ctx, cancel := context.WithTimeout(context.Background(), time.Duration(slow)*500*time.Millisecond)
-			rb, err := d.Channel.ReadUntilPrompt(ctx)
-			cancel()
-			o.readA, o.readAErr = rb, errClass(err)
-			if err != nil && ctx.Err() != nil {
-				o.readAErr = "deadline"
+		switch {
+		case cs.entry == "netconf":
+			o.didNC = true
+			o.ncSession, o.ncCaps = d.nc.SessionID(), d.nc.ServerCapabilities()
+		case cs.bypass || cs.plain || cs.faultKind != "":
+			// nothing was negotiated (whatever the device showed is still unread) / the transport is
+			// about to die: what happens after Open belongs to other properties
+		case cs.firstOp == "C":
+			o.didC = true
+			r, err := d.gd.SendCommand("show version")
+			o.cmdErr = errClass(err)
+			if r != nil {
+				o.cmdResult = r.Result
 			}
+		default:
+			if !cs.variantB && cs.entry != "network" {
+				o.didA = true
+				ctx, cancel := context.WithTimeout(context.Background(), time.Duration(slow)*500*time.Millisecond)
+				rb, err := d.gd.Channel.ReadUntilPrompt(ctx)
+				cancel()
+				o.readA, o.readAErr = rb, errClass(err)
+				if err != nil && ctx.Err() != nil {
+					o.readAErr = "deadline"
+				}
+			}
+			p, err := d.gd.GetPrompt()
+			o.didP = true
+			o.prompt, o.promptErr = []byte(p), errClass(err)
 		}
-		p, err := d.GetPrompt()
-		o.prompt, o.promptErr = []byte(p), errClass(err)
-		_ = d.Close()
+		closeAll()
 	}
 	return o
 }
@@ -501,7 +602,7 @@ func runC10case(cs c10case, slow int) c10obs {
 
 func runC10(c *ctx) {
 	res := c.res
-	res.Rule = "login dialogues: real generic.NewDriver(...).Open() (no auth bypass) over dialogue-automaton transports implementing InChannelAuthImplementation (telnet) / SSHImplementation+InChannelAuth (ssh): banners (incl. lines containing login:/password: mid-line), prompt spellings, 0-3 rejections, passphrase/password/user-name orders, ssh failure lines (realistic + derived from the extracted table), silence at any stage incl. mid-prompt, LF/CRLF, echo on/off; segmentations whole/1-byte/fixed/random x read sizes 3..65535; 10% malformed fragment streams. Observed: Open error class, device (state,line) log, transport Close calls, first Channel.ReadUntilPrompt / GetPrompt. The reads the transport delivered are replayed through the Lean model. non-trivial = in-domain (wf holds on the observed reads) case in which a credential was written or Open failed; distinct by case seed"
+	res.Rule = "login dialogues: real generic.NewDriver(...).Open() (no auth bypass) over dialogue-automaton transports implementing InChannelAuthImplementation (telnet) / SSHImplementation+InChannelAuth (ssh): banners (incl. lines containing login:/password: mid-line), prompt spellings, 0-3 rejections, passphrase/password/user-name orders, ssh failure lines (realistic + derived from the extracted table), silence at any stage incl. mid-prompt, LF/CRLF, echo on/off; segmentations whole/1-byte/fixed/random x read sizes 3..65535; 10% malformed fragment streams. Every fourth case is an extended scenario: network driver built from a platform definition (custom login patterns in its options, prompt = privilege-level pattern, on-open acquire-priv) or netconf driver (login, then the server hello is read from the requeued bytes: session-id and capabilities judged), custom username/password/passphrase/prompt patterns via options, auth bypass, transport without in-channel auth, empty / long / return-containing secrets, no passphrase configured, transport EOF / read error / write error during login (failure must close the transport), first SendCommand after Open. Observed: Open error class, device (state,line) log, transport Close calls, first Channel.ReadUntilPrompt / GetPrompt. The reads the transport delivered are replayed through the Lean model. non-trivial = in-domain (wf holds on the observed reads) case in which a credential was written or Open failed; distinct by case seed"
 	if c.replay != "" {
 		f := strings.Fields(c.replay)
 		if len(f) >= 2 && f[0] == "c10canon" {
@@ -509,6 +610,11 @@ func runC10(c *ctx) {
 			if all := c10canonical(); k >= 0 && k < len(all) {
 				c10check(c, all[k:k+1])
 			}
+			return
+		}
+		if len(f) >= 2 && f[0] == "c10x" {
+			seed, _ := strconv.ParseUint(f[1], 10, 64)
+			c10check(c, []c10case{genC10x(seed)})
 			return
 		}
 		if len(f) >= 2 && f[0] == "c10case" {
@@ -542,6 +648,11 @@ func runC10(c *ctx) {
 		cases := make([]c10case, k)
 		for i := range cases {
 			cases[i] = genC10(c.rng.U64(), c.thorough())
+		}
+		for i := range cases {
+			if i%4 == 3 { // every fourth case is an extended scenario (c10x.go)
+				cases[i] = genC10x(cases[i].seed)
+			}
 		}
 		c10check(c, cases)
 		done += k
@@ -636,6 +747,73 @@ func c10judge(cs c10case, o c10obs, ans string) (dom bool, fs []c10finding, nont
 	_ = mCred
 	_ = mBuf
 	implClosed := o.closeCalls > 0
+	if cs.entry == "network" {
+		// the network driver's Open goes on after the login: its on-open `acquire-priv` fetches the
+		// prompt, i.e. writes returns and makes the shell answer. Those are not part of the login.
+		nm := 0
+		if mWrites != "." {
+			nm = strings.Count(mWrites, ",") + 1
+		}
+		for len(o.writes) > nm && string(o.writes[len(o.writes)-1]) == "\n" {
+			o.writes = o.writes[:len(o.writes)-1]
+		}
+		var ls []sim.LoginLine
+		for _, l := range o.lines {
+			if !(l.Kind == sim.LoginShell && l.Line == "") {
+				ls = append(ls, l)
+			}
+		}
+		o.lines = ls
+		for len(o.kinds) > 1 && o.kinds[len(o.kinds)-1] == sim.LoginShell && o.kinds[len(o.kinds)-2] == sim.LoginShell {
+			o.kinds = o.kinds[:len(o.kinds)-1]
+		}
+	}
+	if cs.entry == "netconf" {
+		// the netconf driver's Open goes on after the login: it answers the server hello with its own
+		// (one write + one return), which the mute server takes as lines of input
+		nm := 0
+		if mWrites != "." {
+			nm = strings.Count(mWrites, ",") + 1
+		}
+		if len(o.writes) == nm+2 && bytes.Contains(o.writes[nm], []byte("<hello")) && string(o.writes[nm+1]) == "\n" {
+			o.writes = o.writes[:nm]
+		}
+		var ls []sim.LoginLine
+		for _, l := range o.lines {
+			if l.Kind != sim.LoginShell {
+				ls = append(ls, l)
+			}
+		}
+		o.lines = ls
+		for len(o.kinds) > 1 && o.kinds[len(o.kinds)-1] == sim.LoginShell && o.kinds[len(o.kinds)-2] == sim.LoginShell {
+			o.kinds = o.kinds[:len(o.kinds)-1]
+		}
+	}
+	// ---- unconditionally: every failure of Open closes the transport, a success leaves it open
+	if o.outcome != "nil" && (!o.closed || o.closeCalls < 1) {
+		add("oracle", "not-closed", "Open failed with %s but the transport was not closed (Close calls %d); dialogue %v fault %s@%d", o.outcome, o.closeCalls, o.kinds, cs.faultKind, cs.faultAt)
+	}
+	if o.outcome == "nil" && o.closeCalls != 0 {
+		add("oracle", "closed-on-success", "Open succeeded but closed the transport (Close calls %d)", o.closeCalls)
+	}
+	// ---- injected transport faults (the error class itself is C06's subject): the model replays the
+	// reads that were delivered and then sees silence; the implementation may in addition stop at
+	// the fault, so it may end earlier — never later, never differently
+	faultClass := map[string]string{"eof": "connection", "ioerr": "other", "werr": "other"}[cs.faultKind]
+	triggered := (cs.faultKind == "eof" || cs.faultKind == "ioerr") && o.delivered >= cs.faultAt || cs.faultKind == "werr" && o.writeFails > 0
+	if triggered {
+		nontriv = true
+		if o.outcome == "nil" && cs.faultKind == "werr" {
+			add("oracle", "write-failure-ignored", "the transport refused %d write(s) during login but Open succeeded; dialogue %v", o.writeFails, o.kinds)
+		}
+		if o.outcome != faultClass && (o.outcome != mOut || mOut == "timeout") {
+			add("correspondence", "fault-outcome", "fault %s@%d: Open returned %s, expected %s or the model's %s; request %s", cs.faultKind, cs.faultAt, o.outcome, faultClass, mOut, o.request)
+		}
+		if !strings.HasPrefix(mWrites+",", vlib.HexList(o.writes)+",") && len(o.writes) > 0 {
+			add("correspondence", "fault-writes", "fault %s@%d: device received writes %s, not a prefix of the model's %s; request %s", cs.faultKind, cs.faultAt, vlib.HexList(o.writes), mWrites, o.request)
+		}
+		return
+	}
 	// ---- correspondence: implementation vs model (the model covers every chunk sequence)
 	if o.outcome != mOut {
 		add("correspondence", "outcome", "Open returned %s, model %s; request %s", o.outcome, mOut, o.request)
@@ -651,7 +829,7 @@ func c10judge(cs c10case, o c10obs, ans string) (dom bool, fs []c10finding, nont
 			case mFirst != "none" && (o.readAErr != "nil" || vlib.Hex(o.readA) != mFirst):
 				add("correspondence", "first-read", "first ReadUntilPrompt after Open: %q err %s, model %s; request %s", o.readA, o.readAErr, mFirst, o.request)
 			}
-		} else if mFound != "none" && (o.promptErr != "nil" || vlib.Hex(o.prompt) != mFound) {
+		} else if o.didP && cs.entry != "network" && mFound != "none" && (o.promptErr != "nil" || vlib.Hex(o.prompt) != mFound) {
 			add("correspondence", "first-prompt", "first GetPrompt after Open: %q err %s, model %s; request %s", o.prompt, o.promptErr, mFound, o.request)
 		}
 	}
@@ -668,13 +846,22 @@ func c10judge(cs c10case, o c10obs, ans string) (dom bool, fs []c10finding, nont
 				if l.Kind == k {
 					atPrompt++
 				}
-				if distinct && l.Line == creds[k] {
+				if distinct && l.Line == creds[k] && (l.Kind == sim.LoginUser || l.Kind == sim.LoginPass || l.Kind == sim.LoginPhrase) {
 					byContent++
 				}
 			}
 			// by content when the three credentials are distinguishable; by the state the device was in
 			// only for in-domain dialogues (out of domain, e.g. a banner line that really matches the
 			// user-name pattern, the client may legitimately type another credential at this prompt)
+			if cs.rawSecret {
+				// the device sees fragments: count the credential writes themselves
+				atPrompt, byContent = 0, 0
+				for w := 0; w < len(o.writes); w += 2 {
+					if distinct && string(o.writes[w]) == creds[k] {
+						byContent++
+					}
+				}
+			}
 			if byContent > 2 || (atPrompt > 2 && (dom || cs.canonical) && !cs.malformed) {
 				add("oracle", "credential-typed-more-than-twice:"+names[k], "in one Open the device received the %s %d times (%d times at its %s prompt); dialogue %v, log %v", names[k], c10max(byContent, atPrompt), atPrompt, k, o.kinds, o.lines)
 			}
@@ -702,6 +889,9 @@ func c10judge(cs c10case, o c10obs, ans string) (dom bool, fs []c10finding, nont
 	}
 	// ---- in-domain: the specification (computed here from the device's own account), the model
 	want := c10spec(o.kinds)
+	if cs.bypass || cs.plain {
+		want = "nil" // no in-channel authentication: Open succeeds and types nothing, whatever the device shows
+	}
 	if want != specL {
 		add("machinery", "spec-vs-spec", "Lean spec %s, harness spec %s for kinds %v", specL, want, o.kinds)
 		return
@@ -716,6 +906,9 @@ func c10judge(cs c10case, o c10obs, ans string) (dom bool, fs []c10finding, nont
 	var got []string
 	for _, l := range o.lines {
 		got = append(got, c10letter[l.Kind]+":"+vlib.Hex([]byte(l.Line)))
+		if cs.rawSecret {
+			continue // a credential with an embedded return reaches the device as several lines
+		}
 		switch l.Kind {
 		case sim.LoginUser, sim.LoginPass, sim.LoginPhrase:
 			wantCred := map[string]string{sim.LoginUser: cs.user, sim.LoginPass: cs.pass, sim.LoginPhrase: cs.phrase}[l.Kind]
@@ -736,17 +929,21 @@ func c10judge(cs c10case, o c10obs, ans string) (dom bool, fs []c10finding, nont
 			lineFindings++
 		}
 	}
-	if gotLines != specLines && lineFindings == 0 {
+	if gotLines != specLines && lineFindings == 0 && !cs.rawSecret {
 		// e.g. a prompt the device showed (and the patterns accept) was never answered
 		add("oracle", "device-lines", "dialogue %v: the device received the lines %s, the property demands %s", o.kinds, gotLines, specLines)
 	}
-	if want != "nil" && o.outcome != "nil" && (!o.closed || o.closeCalls < 1) {
-		add("oracle", "not-closed", "Open failed with %s but the transport was not closed (Close calls %d)", o.outcome, o.closeCalls)
-	}
-	if want == "nil" && o.outcome == "nil" {
-		if o.closeCalls != 0 {
-			add("oracle", "closed-on-success", "Open succeeded but closed the transport")
+	if want == "nil" && o.outcome == "nil" && o.didNC {
+		if o.ncSession != cs.ncSession || strings.Join(o.ncCaps, " ") != strings.Join(cs.ncCaps, " ") {
+			add("oracle", "netconf-hello", "netconf Open after in-channel login: session-id %d capabilities %v, the server sent %d %v", o.ncSession, o.ncCaps, cs.ncSession, cs.ncCaps)
 		}
+	}
+	if want == "nil" && o.outcome == "nil" && o.didC {
+		if o.cmdErr != "nil" || o.cmdResult != c10cmdOutput {
+			add("oracle", "first-command", "first SendCommand after Open: result %q err %s, the device printed %q", o.cmdResult, o.cmdErr, c10cmdOutput)
+		}
+	}
+	if want == "nil" && o.outcome == "nil" && !o.didNC && !o.didC && !cs.bypass && !cs.plain {
 		wp := strings.TrimSpace(cs.prompt)
 		if cs.malformed {
 			// fragment streams carry their own pseudo prompts: nothing to compare the content with
@@ -757,7 +954,7 @@ func c10judge(cs c10case, o c10obs, ans string) (dom bool, fs []c10finding, nont
 				add("oracle", "requeue", "after a successful Open the bytes read during login are not available: ReadUntilPrompt gave %q err %s, expected text ending in the prompt %q", o.readA, o.readAErr, wp)
 			}
 		}
-		if o.promptErr != "nil" || (wp != "" && strings.TrimSpace(string(o.prompt)) != wp) {
+		if o.didP && (o.promptErr != "nil" || (wp != "" && strings.TrimSpace(string(o.prompt)) != wp)) {
 			add("oracle", "first-prompt", "GetPrompt after Open: %q err %s, device prompt %q", o.prompt, o.promptErr, wp)
 		}
 	}
@@ -833,6 +1030,33 @@ func c10check(c *ctx, cases []c10case) {
 			caseLine = fmt.Sprintf("c10canon %d", cs.canonIdx)
 			res.Count("canonical")
 		}
+		if cs.ext {
+			caseLine = fmt.Sprintf("c10x %d", cs.seed)
+			res.Count("x entry:" + cs.entry)
+			res.Count(fmt.Sprintf("x patset:%s platform-options:%v", facts.AuthPool[cs.patSet].Name, cs.viaPlatform))
+			res.Count("x first-op:" + cs.firstOp)
+			if cs.bypass {
+				res.Count("x auth-bypass")
+			}
+			if cs.plain {
+				res.Count("x transport-without-inchannel-auth")
+			}
+			if cs.faultKind != "" {
+				res.Count("x fault:" + cs.faultKind)
+			}
+			if cs.rawSecret {
+				res.Count("x secret-with-return")
+			}
+			if cs.user == "" || cs.pass == "" {
+				res.Count("x empty-user-or-password")
+			}
+			if len(cs.pass) > 200 || len(cs.user) > 100 || len(cs.phrase) > 200 {
+				res.Count("x long-secret")
+			}
+			if cs.ssh && cs.phrase == "" {
+				res.Count("x no-passphrase-configured")
+			}
+		}
 		fl := "telnet"
 		if cs.ssh {
 			fl = "ssh"
@@ -843,6 +1067,23 @@ func c10check(c *ctx, cases []c10case) {
 		res.Count("outcome:" + o.outcome)
 		if cs.malformed {
 			res.Count("malformed")
+		}
+		askedPhrase, errWithPrompt, userAsked := false, false, false
+		for _, st := range cs.plan {
+			askedPhrase = askedPhrase || st.Kind == sim.LoginPhrase
+			userAsked = userAsked || st.Kind == sim.LoginUser
+			if st.Kind == sim.LoginErr && (strings.Contains(strings.ToLower(st.Text), "password:") || strings.Contains(st.Text, "passphrase for key") || strings.HasSuffix(strings.TrimSpace(st.Text), strings.TrimSpace(cs.prompt))) {
+				errWithPrompt = true
+			}
+		}
+		if askedPhrase && cs.phrase == "" {
+			res.Count("passphrase-prompt-but-none-configured")
+		}
+		if errWithPrompt {
+			res.Count("failure-text-and-prompt-in-one-emission")
+		}
+		if !cs.ssh && !userAsked && !cs.malformed {
+			res.Count("telnet-without-username-prompt")
 		}
 		if cs.silent {
 			res.Count("silence")
